@@ -16,7 +16,7 @@ from ..rules.leftrec import B, Q
 LEVEL = 'other'
 TECHNIQUE = ('static: printer exhaustiveness over the class table; per-node round trip pretty -> checker\'s EBNF reader -> PEG IR, '
              'with every _pretty method interpreted on stand-in nodes (symbol/quoting agreement between the printers and the grammar '
-             'language); interpretation of Rule._pretty and Grammar._pretty against "nothing that affects parsing is dropped"; R-CHAIN')
+             'language); interpretation of Rule._pretty and Grammar._pretty against "nothing that affects parsing is dropped"; unit discipline (display width) in the railroad layout; R-CHAIN')
 LEVEL_TEXT = ('Decides from the source, for every node class at once: each concrete model class has its own printer; the text each '
               'printer produces for a stand-in node (tokens with quotes and backslashes, patterns with slashes, every operator '
               'symbol, names, alerts, constants, includes, joins) is read back by an independent reader of the grammar language to '
